@@ -186,16 +186,6 @@ func (h *hydrex) Save(ctx context.Context, indexName string, domain string, item
 		}
 	}
 
-	// delete the domain from all indexes where it no longer exists
-	if len(deleteManyFromManyReq) > 0 {
-		_ = h.hydraidegoInterface.CatalogDeleteManyFromMany(ctx, deleteManyFromManyReq, nil)
-	}
-
-	// delete domains from the core data
-	if len(itemsForDelete) > 0 {
-		_ = h.hydraidegoInterface.CatalogDeleteMany(ctx, coreDataName, itemsForDelete, nil)
-	}
-
 	// iterating through the new items
 	for key, data := range items {
 		if existing, ok := existingCoreData[key]; ok {
@@ -233,8 +223,23 @@ func (h *hydrex) Save(ctx context.Context, indexName string, domain string, item
 	}
 
 	// add new key to the core data
-	if err := h.hydraidegoInterface.CatalogSaveMany(ctx, coreDataName, itemsForSave, nil); err != nil {
-		slog.Error("Error while saving core data", "error", err)
+	if len(itemsForSave) > 0 {
+		if err := h.hydraidegoInterface.CatalogSaveMany(ctx, coreDataName, itemsForSave, nil); err != nil {
+			// Do not index what could not be stored: the reverse index must never list a
+			// domain for a key its core data does not hold.
+			slog.Error("Error while saving core data", "error", err)
+			return
+		}
+	}
+
+	// only now that the new core data is stored: delete the domain from all indexes where it no longer exists
+	if len(deleteManyFromManyReq) > 0 {
+		_ = h.hydraidegoInterface.CatalogDeleteManyFromMany(ctx, deleteManyFromManyReq, nil)
+	}
+
+	// delete domains from the core data
+	if len(itemsForDelete) > 0 {
+		_ = h.hydraidegoInterface.CatalogDeleteMany(ctx, coreDataName, itemsForDelete, nil)
 	}
 
 	// save all domains to the indexes
